@@ -128,10 +128,13 @@ class TelegramQueue:
     async def stop(self) -> None:
         """Stop telegram queue."""
         logger.debug("Stopping TelegramQueue")
+        if self._consumer_task is None or self._consumer_task.done():
+            # not running - a stop sentinel left in the queue would end the
+            # consumer of the next start() at once
+            return
         # If a None object is pushed to the queue, the queue stops
         self.xknx.telegrams.put_nowait(None)
-        if self._consumer_task is not None:
-            await self._consumer_task
+        await self._consumer_task
 
     async def _telegram_consumer(self) -> None:
         """Endless loop for processing telegrams."""
